@@ -74,6 +74,10 @@ def check(ctx):
     t4 = os.path.join(w, "storm.ndjson")
     vlib.xv("singleflight", mode="storm", n=20 if thorough else 4, seed=ctx.seed, callers=32, keys=4, rounds=6, out=t4)
     validate(ctx, t4, "storm")
+    # 5. one flight with a crowd of 66 000 callers (above every 16-bit count): totals only
+    t5 = os.path.join(w, "crowd.ndjson")
+    vlib.xv("singleflight", mode="crowd", n=3 if thorough else 1, seed=ctx.seed, out=t5)
+    validate(ctx, t5, "crowd")
     ctx.assumptions += [
         "tokio Notify::notify_waiters wakes exactly the Notified futures created before the call (modelled as the `registered` set)",
         "liveness on the code is a bounded-time observation: a caller that has not returned after 3 s of complete inactivity is a timeout event, which no spec action matches",
